@@ -349,6 +349,16 @@ VOP(mz_zoneless)
 	} catch (const std::exception&) {
 		rejected = true;
 	}
+	// ... and so must one created at run time (the path of PUT /v1/objects/endpoints and of config::UpdateObject)
+	String rn = "mz_zlr_" + std::to_string(CaseId()) + "_" + std::to_string(++l_Ctr);
+	bool created = false;
+	try {
+		Array::Ptr errors = new Array();
+		created = ConfigObjectUtility::CreateObject(Endpoint::TypeInstance, rn, "object Endpoint \"" + rn + "\" { }\n", errors, nullptr);
+	} catch (const std::exception&) {
+		created = false;
+	}
+	if (created || Endpoint::GetByName(rn)) rejected = false;
 	Out(std::string("zoneless rejected=") + (rejected ? "1" : "0"));
 }
 
